@@ -440,10 +440,17 @@ func (in *Interp) runInit(fr *Frame) {
 				return
 			case *ssa.Call:
 				callee := x.Call.StaticCallee()
-				if callee != nil && (callee.Name() == "init" || strings.HasPrefix(callee.Name(), "init#")) {
-					// other packages are initialised lazily; user init functions are skipped
+				if callee != nil && callee.Name() == "init" {
+					// other packages are initialised lazily
 					in.set(fr, x, TupleV{})
 					continue
+				}
+				if callee != nil && strings.HasPrefix(callee.Name(), "init#") {
+					// user init functions: run (best effort) for the repository's own packages only
+					if callee.Pkg == nil || !strings.HasPrefix(callee.Pkg.Pkg.Path(), modPath) || strings.Contains(callee.Pkg.Pkg.Path(), "zzverif") {
+						in.set(fr, x, TupleV{})
+						continue
+					}
 				}
 				in.initInstr(fr, ins)
 			default:
@@ -738,6 +745,13 @@ func (in *Interp) siteFunc() string {
 // obligation: `safe` must hold; otherwise the Go run time would panic with kind.
 func (in *Interp) obligation(safe *Term, kind string) {
 	if safe.IsTrue() {
+		return
+	}
+	if in.pristineMode {
+		// package initialisation is best effort: a failing check just abandons that initialiser
+		if safe.IsFalse() {
+			panic(&goPanic{msg: "runtime error during package init: " + kind})
+		}
 		return
 	}
 	in.sh.stats.add("obligations", 1)
